@@ -116,6 +116,8 @@ Section Spec.
     | Ok b => existsb (fun av => bad (fst av) (snd av)) (positional_values f c b)
     | Raise _ => false
     end.
+  (* any value of the call, whichever way it reaches its parameter *)
+  Definition c03_values_bad (f : fn) (c : call) : bool := c03_supplied_bad f c || c03_positional_bad f c.
   Definition c03_args_bad (f : fn) (c : call) : bool := c03_supplied_bad f c || setter_value_bad f c || c03_positional_bad f c.
 
   Definition c04_args_ok (f : fn) (c : call) : bool :=
